@@ -18,7 +18,7 @@ func init() {
 	Register("C14", &Info{
 		Run:   runC14,
 		Quick: 10000, Thor: 1500000,
-		Rule: "a world = a history of 1-2 connections of one fingerprint (HelloGolang, ticket/PSK-capable parrots, any parrot by stratum) to a server presenting one fixture chain (valid, wrong name, untrusted root, expired, not yet valid, short-lived) at TLS 1.2 or 1.3, each connection with its own Config (ServerName incl. IPv4/IPv6 literals, optionally replaced through SetSNI after an explicit BuildHandshakeState, InsecureServerNameToVerify in {unset, *, matching, other}, InsecureSkipTimeVerify, InsecureSkipVerify) and its own client clock (Config.Time offset; jumps of days/weeks/decades, forwards or backwards, between the connections) over a shared session cache; ECH dimension (TLS 1.3, ECH-capable fingerprints): no ECH, an accepting server (verification against the configured name as usual) or a rejecting server (the chain must verify against the config's public name: then and only then the client returns ECHRejectionError), with a certificate valid for every name or for the public name only; oracle: independent truth table - a handshake succeeds iff InsecureSkipVerify or (chain trusted and validity period ok at the client's time unless InsecureSkipTimeVerify and leaf matches the verification name unless it is *); a second (possibly resumed) connection may never succeed where a fresh verification under its own Config and clock would fail; non-trivial = verification actually ran (InsecureSkipVerify unset); distinct = (fingerprint, cert, both configs, clock offsets, version)",
+		Rule: "a world = a history of 1-2 connections of one fingerprint (HelloGolang, ticket/PSK-capable parrots, any parrot by stratum) to a server presenting one fixture chain (valid, wrong name, untrusted root, expired, not yet valid, short-lived) at TLS 1.2 or 1.3, each connection with its own Config (ServerName incl. IPv4/IPv6 literals, optionally replaced through SetSNI after an explicit BuildHandshakeState, InsecureServerNameToVerify in {unset, *, matching, other}, InsecureSkipTimeVerify, InsecureSkipVerify) and its own client clock (Config.Time offset; jumps of days/weeks/decades, forwards or backwards, between the connections) over a shared session cache; ECH dimension (ECH-capable fingerprints): no ECH, a TLS 1.2-only server answering an ECH-configured client (no completion with a certificate that does not cover the configured name), an accepting server (verification against the configured name as usual) or a rejecting server (the chain must verify against the config's public name: then and only then the client returns ECHRejectionError), with a certificate valid for every name or for the public name only; oracle: independent truth table - a handshake succeeds iff InsecureSkipVerify or (chain trusted and validity period ok at the client's time unless InsecureSkipTimeVerify and leaf matches the verification name unless it is *); a second (possibly resumed) connection may never succeed where a fresh verification under its own Config and clock would fail; non-trivial = verification actually ran (InsecureSkipVerify unset); distinct = (fingerprint, cert, both configs, clock offsets, version)",
 		Assumptions: []string{"trust/validity/name ground truth comes from how the fixtures were generated (tools/genfix), not from x509.Verify",
 			"ECH strata (accepted / rejected verifies against the public name) are part of the C15 scenario"},
 		Real: []string{"utls client from /repo", "utls or std server"},
@@ -203,8 +203,14 @@ func runC14(c *Ctx) {
 	if c.Run%4 != 3 && ch.Bool(30, "ech") {
 		echIDs := []IDInfo{{"Golang", tls.HelloGolang}, {"Chrome_133", tls.HelloChrome_133}, {"Firefox_120", tls.HelloFirefox_120}, {"Chrome_120", tls.HelloChrome_120}}
 		idi = echIDs[ch.Pick(len(echIDs), "ech-id")]
-		echMode = []string{"accept", "reject"}[ch.Pick(2, "ech-mode")]
+		echMode = []string{"accept", "reject", "accept", "reject", "tls12"}[ch.Pick(5, "ech-mode")]
 		srvMax = tls.VersionTLS13
+		if echMode == "tls12" {
+			// a server that knows nothing of ECH and answers TLS 1.2 (the parrots' hellos offer it):
+			// there is no acceptance signal in TLS 1.2, so whatever the client does, it may not
+			// complete with a certificate that does not cover the configured name
+			srvMax = tls.VersionTLS12
+		}
 		nconn = 1
 		cfgs = cfgs[:1]
 		if ch.Bool(40, "ech-publiconly") {
@@ -233,8 +239,10 @@ func runC14(c *Ctx) {
 		if echMode == "reject" {
 			sk = other
 		}
-		scfg.EncryptedClientHelloKeys = []tls.EncryptedClientHelloKey{{Config: sk.cfg, PrivateKey: sk.priv, SendAsRetry: true}}
-		stdcfg.EncryptedClientHelloKeys = []stdtls.EncryptedClientHelloKey{{Config: sk.cfg, PrivateKey: sk.priv, SendAsRetry: true}}
+		if echMode != "tls12" { // (that server knows nothing of ECH)
+			scfg.EncryptedClientHelloKeys = []tls.EncryptedClientHelloKey{{Config: sk.cfg, PrivateKey: sk.priv, SendAsRetry: true}}
+			stdcfg.EncryptedClientHelloKeys = []stdtls.EncryptedClientHelloKey{{Config: sk.cfg, PrivateKey: sk.priv, SendAsRetry: true}}
+		}
 		c.Probe("ech-" + echMode)
 	}
 	c.R.Class = fmt.Sprintf("%s cert=%s max=%x peer=%s ech=%s", idi.Name, certName, srvMax, peerName(peer), echMode)
@@ -248,7 +256,9 @@ func runC14(c *Ctx) {
 			Setup: func(l *simnet.Link) { l.Frag = ch.Bool(25, "frag") }}
 		if echMode != "none" {
 			cfg.EncryptedClientHelloConfigList = echList
-			cfg.MinVersion = tls.VersionTLS13
+			if echMode != "tls12" {
+				cfg.MinVersion = tls.VersionTLS13
+			}
 			v.lateSNI = ""
 			cfgs[i].lateSNI = ""
 		}
@@ -278,6 +288,18 @@ func runC14(c *Ctx) {
 				c.Violate(fmt.Sprintf("rejected-certificate-that-must-pass cert=%s ech=reject", certName), "%s: certificate verifies against the public name (%s) but the client returned %v instead of ECHRejectionError", c.R.Class, why, o.CErr)
 			} else if !want && isRej {
 				c.Violate(fmt.Sprintf("accepted-certificate-that-must-fail reason=%q ech=reject", why), "%s: the client reported the ECH rejection (and its retry configs) although the certificate does not verify against the public name: %s", c.R.Class, why)
+			}
+			break
+		}
+		if echMode == "tls12" {
+			c.R.NonTrivial = !v.skipVerify
+			if o.CDone && !want {
+				c.Violate(fmt.Sprintf("accepted-certificate-that-must-fail reason=%q ech=tls12-server", why), "%s: an ECH-configured client completed at %x although verification against the configured name must fail: %s", c.R.Class, o.CState.Version, why)
+			}
+			if o.CDone {
+				c.Probe("ech-configured-client-completed-at-tls12")
+			} else {
+				c.Probe("ech-tls12-refused")
 			}
 			break
 		}
